@@ -311,6 +311,8 @@ class CFG:
         seen = {start.id}
         dq = deque([start])
         bn = blocked_nodes or set()
+        if start.id in bn:
+            return None  # the path would begin at a node it has to avoid (e.g. one statement both removes and marks)
         while dq:
             cur = dq.popleft()
             for e in self.succ[cur.id]:
